@@ -202,7 +202,13 @@ class Constant(Expression):
     def __init__(self, value: float | int | ArrayLike) -> None:
         self._hash = None
         if isinstance(value, (int, float)):
-            self.value = value
+            # Python ints are stored as floats: NumPy multiplies two ints in int64,
+            # and x / 2**32 differentiates to c / (c * c), which wrapped around
+            is_int = isinstance(value, int) and not isinstance(value, bool)
+            try:
+                self.value = float(value) if is_int else value
+            except OverflowError:  # beyond the float range: keep the exact int
+                self.value = value
             return
         arr = np.asarray(value)
         if arr.dtype == object:
